@@ -289,7 +289,7 @@ type c04Cfg struct {
 	stop      ssa.Instruction               // executing it a second time (or the first time, if start is elsewhere) in the root frame ends the trace
 	startB    *ssa.BasicBlock               // nil: function entry
 	startI    int                           // index in startB
-	startIn   *ssa.Call                     // startB lies in a function literal of root: the call in root that runs it
+	chain     []*ssa.Call                   // startB lies in a function reached from root through this chain of calls (outermost first): root resumes after chain[0], …
 	isEvent   func(name string) bool        // calls that make a function "interesting" (followed)
 	evInstr   func(in ssa.Instruction) bool // other instructions that make a function interesting (sends, map updates …)
 	emptyMaps bool                          // first-call mode: a lookup in a map held in an enclosing-scope cell finds nothing
@@ -331,6 +331,7 @@ type c04Exec struct {
 	storeVal map[*ssa.Alloc]ssa.Value
 	hasEv    map[*ssa.Function]bool
 	family   []*ssa.Function
+	entered  map[*ssa.Function]bool // functions whose body was executed on some path
 	err      string
 	allocID  map[*ssa.Alloc]int
 }
@@ -344,7 +345,7 @@ func c04Outermost(fn *ssa.Function) *ssa.Function {
 
 func c04NewExec(cfg c04Cfg) *c04Exec {
 	x := &c04Exec{cfg: cfg, lo: map[string]int64{}, nstores: map[*ssa.Alloc]int{}, storeVal: map[*ssa.Alloc]ssa.Value{},
-		hasEv: map[*ssa.Function]bool{}, allocID: map[*ssa.Alloc]int{}}
+		hasEv: map[*ssa.Function]bool{}, allocID: map[*ssa.Alloc]int{}, entered: map[*ssa.Function]bool{}}
 	if x.cfg.maxTraces == 0 {
 		x.cfg.maxTraces = 40000
 	}
@@ -352,6 +353,31 @@ func c04NewExec(cfg c04Cfg) *c04Exec {
 		x.cfg.pkg = c04Outermost(cfg.root).Pkg
 	}
 	x.family = an.Closure(c04Outermost(cfg.root))
+	if cfg.startB != nil {
+		// the code between root and the start point belongs to the analysed function as well
+		famSeen := map[*ssa.Function]bool{}
+		for _, f := range x.family {
+			famSeen[f] = true
+		}
+		if o := c04Outermost(cfg.startB.Parent()); !famSeen[o] {
+			for _, f := range an.Closure(o) {
+				if !famSeen[f] {
+					famSeen[f] = true
+					x.family = append(x.family, f)
+				}
+			}
+		}
+		for _, call := range cfg.chain {
+			if o := c04Outermost(call.Parent()); !famSeen[o] {
+				for _, f := range an.Closure(o) {
+					if !famSeen[f] {
+						famSeen[f] = true
+						x.family = append(x.family, f)
+					}
+				}
+			}
+		}
+	}
 	for _, f := range x.family {
 		for _, in := range an.Instrs(f, false) {
 			switch s := in.(type) {
@@ -490,7 +516,7 @@ func (x *c04Exec) computeHasEv() {
 	// candidate functions: the family of the root plus the package's functions
 	var fns []*ssa.Function
 	seen := map[*ssa.Function]bool{}
-	for _, f := range append(append([]*ssa.Function{}, x.family...), an.PkgFuncs(x.cfg.pkg)...) {
+	for _, f := range append(append([]*ssa.Function{}, x.family...), an.PkgFuncsAll(x.cfg.pkg)...) {
 		if !seen[f] {
 			seen[f] = true
 			fns = append(fns, f)
@@ -542,13 +568,14 @@ func (x *c04Exec) computeHasEv() {
 	}
 }
 
-func (x *c04Exec) follow(fn *ssa.Function, st *c04State) bool {
+func (x *c04Exec) follow(fn *ssa.Function, st *c04State, args []*c04T) bool {
 	if fn == nil || len(fn.Blocks) == 0 || len(st.frames) > 10 {
 		return false
 	}
 	// function literals of the analysed function's family are always followed (they are its own code);
-	// top-level functions only when they contain events
-	if !x.hasEv[fn] && (fn.Parent() == nil || c04Outermost(fn) != c04Outermost(x.cfg.root)) {
+	// top-level functions when they contain events, or when they are handed the address of a tracked cell (a
+	// state object passed as receiver / parameter: what they do to it is part of the path)
+	if !x.hasEv[fn] && (fn.Parent() == nil || !x.inFamily(fn)) && !c04HasStateArg(fn, args) && !x.classifiesEvent(fn, args) {
 		return false
 	}
 	if fn.Pkg != x.cfg.pkg && c04Outermost(fn).Pkg != x.cfg.pkg {
@@ -563,6 +590,67 @@ func (x *c04Exec) follow(fn *ssa.Function, st *c04State) bool {
 		}
 	}
 	return true
+}
+
+// classifiesEvent: fn is a loop-free in-package function applied to (a component of) the result of an event call —
+// a helper that merely classifies that result (`outcomeOf(errC)`); what the caller then branches on is decided inside.
+func (x *c04Exec) classifiesEvent(fn *ssa.Function, args []*c04T) bool {
+	if x.cfg.isEvent == nil || fn.Parent() != nil || len(an.Loops(fn)) > 0 || len(fn.Blocks) > 24 {
+		return false
+	}
+	if x.cfg.isEvent("static:" + c02Strip(an.FuncName(fn))) {
+		return false
+	}
+	for _, a := range args {
+		for a.kind == 's' && strings.HasPrefix(a.op, "ext#") && len(a.args) == 1 {
+			a = a.args[0]
+		}
+		switch {
+		case a.kind == 'u' && strings.HasPrefix(a.op, "ev:"):
+			return true
+		case a.kind == 's' && strings.HasPrefix(a.op, "call:") && x.cfg.isEvent(strings.TrimPrefix(a.op, "call:")):
+			return true
+		}
+	}
+	return false
+}
+
+func (x *c04Exec) inFamily(fn *ssa.Function) bool {
+	o := c04Outermost(fn)
+	for _, f := range x.family {
+		if f == o {
+			return true
+		}
+	}
+	return false
+}
+
+// c04HasStateArg: a pointer-typed parameter of fn is bound to the address of a cell the evaluator tracks, or to a
+// pointer to a struct that is state of the caller (a value that existed before the path started).
+func c04HasStateArg(fn *ssa.Function, args []*c04T) bool {
+	for i, p := range fn.Params {
+		if i >= len(args) {
+			break
+		}
+		pt, ok := p.Type().Underlying().(*types.Pointer)
+		if !ok {
+			continue
+		}
+		if _, isStruct := pt.Elem().Underlying().(*types.Struct); !isStruct {
+			continue
+		}
+		switch a := args[i]; a.kind {
+		case 'a', 'f':
+			return true
+		case 's':
+			if a.op == "param" || a.op == "free" || a.op == "pre" || a.from != nil {
+				return true
+			}
+		case 'i':
+			return true
+		}
+	}
+	return false
 }
 
 func (st *c04State) clone() *c04State {
@@ -647,7 +735,7 @@ func (x *c04Exec) addrOf(al *ssa.Alloc, frame int) *c04T {
 	if name == "" {
 		name = al.Name()
 	}
-	return &c04T{k: fmt.Sprintf("&%s.%d@%d", name, x.aid(al), frame), kind: 'a', al: al, idx: frame}
+	return &c04T{k: fmt.Sprintf("&%s.%d@%d", name, x.aid(al), frame), kind: 'a', al: al, idx: frame, typ: al.Type().Underlying().(*types.Pointer).Elem()}
 }
 
 // frameOfAlloc: the id of the live frame that owns al (outermost scope: 0 when the root is the owner, else -1).
@@ -750,6 +838,9 @@ func (x *c04Exec) fieldAddr(base *c04T, a *ssa.FieldAddr) *c04T {
 	t.kind = 'f'
 	t.idx = a.Field
 	t.op = an.FieldKey(a.X.Type(), a.Field)
+	if pt, ok := a.Type().Underlying().(*types.Pointer); ok {
+		t.typ = pt.Elem()
+	}
 	return t
 }
 
@@ -825,6 +916,7 @@ func (x *c04Exec) addrFor(al *ssa.Alloc, frame int, path []int) *c04T {
 		if st, ok := typ.Underlying().(*types.Struct); ok && i < st.NumFields() {
 			typ = st.Field(i).Type()
 		}
+		f.typ = typ
 		t = f
 	}
 	return t
@@ -1033,26 +1125,44 @@ func (x *c04Exec) run() []*c04Trace {
 	st := &c04State{mem: map[string]*c04T{}, dec: map[string]bool{}, maps: map[string][]c04MapEnt{}, fresh: map[string]bool{}}
 	fr := &c04Frame{id: 0, fn: x.cfg.root, env: map[ssa.Value]*c04T{}, visit: map[*ssa.BasicBlock]int{}}
 	st.frames = []*c04Frame{fr}
+	x.entered[x.cfg.root] = true
+	st.nframe = len(x.cfg.chain)
 	switch {
-	case x.cfg.startIn != nil:
-		// the start point lies in a function literal called from root: root resumes after that call
-		call := x.cfg.startIn
-		fr.b = call.Block()
-		for i, in := range fr.b.Instrs {
-			if in == ssa.Instruction(call) {
-				fr.i = i + 1
+	case len(x.cfg.chain) > 0 && x.cfg.startB != nil:
+		// the start point lies in a function reached from root through a chain of calls: every function of the
+		// chain resumes after its call
+		for ci, call := range x.cfg.chain {
+			fr.b = call.Block()
+			for i, in := range fr.b.Instrs {
+				if in == ssa.Instruction(call) {
+					fr.i = i + 1
+				}
 			}
-		}
-		st.nframe++
-		nf := &c04Frame{id: st.nframe, fn: x.cfg.startB.Parent(), env: map[ssa.Value]*c04T{}, b: x.cfg.startB, i: x.cfg.startI, call: call, visit: map[*ssa.BasicBlock]int{}}
-		for i, p := range nf.fn.Params {
-			if i < len(call.Call.Args) {
-				nf.env[p] = x.val(st, fr, call.Call.Args[i])
-				nf.args = append(nf.args, nf.env[p])
+			var callee *ssa.Function
+			if ci+1 < len(x.cfg.chain) {
+				callee = x.cfg.chain[ci+1].Parent()
+			} else {
+				callee = x.cfg.startB.Parent()
 			}
+			x.entered[callee] = true
+			nf := &c04Frame{id: ci + 1, fn: callee, env: map[ssa.Value]*c04T{}, call: call, visit: map[*ssa.BasicBlock]int{}}
+			calleeT := x.val(st, fr, call.Call.Value)
+			for i, p := range nf.fn.Params {
+				if i < len(call.Call.Args) {
+					nf.env[p] = x.val(st, fr, call.Call.Args[i])
+					nf.args = append(nf.args, nf.env[p])
+				}
+			}
+			for i, fv := range nf.fn.FreeVars {
+				if i < len(calleeT.binds) {
+					nf.env[fv] = calleeT.binds[i]
+				}
+			}
+			st.frames = append(st.frames, nf)
+			fr = nf
 		}
-		st.frames = append(st.frames, nf)
-		st.blocks = append(st.blocks, nf.b)
+		fr.b, fr.i = x.cfg.startB, x.cfg.startI
+		st.blocks = append(st.blocks, fr.b)
 	case x.cfg.startB != nil:
 		fr.b, fr.i = x.cfg.startB, x.cfg.startI
 		st.blocks = append(st.blocks, fr.b)
@@ -1067,15 +1177,19 @@ func (x *c04Exec) run() []*c04Trace {
 func (x *c04Exec) finish(st *c04State, exit string, ret []*c04T, stop *c04Ev) {
 	tr := &c04Trace{evs: st.evs, dec: st.dec, mem: st.mem, exit: exit, ret: ret, stop: stop, blocks: st.blocks, x: x, phis: map[string]*c04T{}}
 	if exit == "stop" {
-		fr := st.frames[0]
-		for _, b := range fr.fn.Blocks {
-			for _, in := range b.Instrs {
-				p, ok := in.(*ssa.Phi)
-				if !ok {
-					break
-				}
-				if v, ok := fr.env[p]; ok {
-					tr.phis[x.static(st, fr, p).k] = v
+		for fi, fr := range st.frames {
+			if fi > len(x.cfg.chain) {
+				break
+			}
+			for _, b := range fr.fn.Blocks {
+				for _, in := range b.Instrs {
+					p, ok := in.(*ssa.Phi)
+					if !ok {
+						break
+					}
+					if v, ok := fr.env[p]; ok {
+						tr.phis[x.static(st, fr, p).k] = v
+					}
 				}
 			}
 		}
@@ -1212,7 +1326,7 @@ func (x *c04Exec) exec(st *c04State) {
 				fr.env[a] = &c04T{k: "tuple(" + hit.k + ",k:true)", kind: 't', args: []*c04T{hit, c04Bool(true)}}
 			} else if !known {
 				fr.env[a] = x.uniq(st, "lookup") // an entry written on this path may or may not be this one
-			} else if x.cfg.emptyMaps && c04IsOuterState(m) {
+			} else if x.cfg.emptyMaps && (c04IsOuterState(m) || (m.kind == 's' && m.op == "param")) {
 				if a.CommaOk {
 					tu := a.Type().(*types.Tuple)
 					fr.env[a] = &c04T{k: "tuple(" + c04Zero(tu.At(0).Type()).k + ",k:false)", kind: 't', args: []*c04T{c04Zero(tu.At(0).Type()), c04Bool(false)}}
@@ -1387,6 +1501,17 @@ func (x *c04Exec) call(st *c04State, fr *c04Frame, a *ssa.Call) bool {
 	if callee.kind == 'c' {
 		fn = callee.fn
 	}
+	if fn != nil && strings.HasPrefix(fn.Synthetic, "bound method wrapper") && len(callee.binds) == 1 {
+		// a method value (`f := obj.method`): the call runs the method on the bound receiver
+		if obj, ok := fn.Object().(*types.Func); ok {
+			if m := fn.Prog.FuncValue(obj); m != nil && len(an.Orig(m).Blocks) > 0 {
+				fn = an.Orig(m)
+				args = append([]*c04T{callee.binds[0]}, args...)
+				ev.args = args
+				callee = &c04T{k: "fn:" + fn.String(), kind: 'c', fn: fn}
+			}
+		}
+	}
 	if fn != nil {
 		if fn.Parent() == nil {
 			ev.name = "static:" + c02Strip(an.FuncName(fn))
@@ -1394,9 +1519,16 @@ func (x *c04Exec) call(st *c04State, fr *c04Frame, a *ssa.Call) bool {
 			ev.name = "closure:" + c02Strip(an.FuncName(fn))
 		}
 		ev.fn = fn
-		if x.follow(fn, st) {
+		if x.follow(fn, st, args) {
 			st.nframe++
+			x.entered[fn] = true
 			nf := &c04Frame{id: st.nframe, fn: fn, env: map[ssa.Value]*c04T{}, b: fn.Blocks[0], call: a, args: args, visit: map[*ssa.BasicBlock]int{}}
+			for i, c := range x.cfg.chain {
+				if c == a {
+					nf.id = i + 1 // the same frame identity as when the path is started inside the chain
+					st.nframe--
+				}
+			}
 			for i, p := range fn.Params {
 				if i < len(args) {
 					nf.env[p] = args[i]
